@@ -373,6 +373,9 @@ func cmpC02(c hx.Case, impl any, reply map[string]any) hx.Verdict {
 			v.Detail = fmt.Sprintf("every reference designates an object, but load gave %s (%v%v)", iout, im["error"], im["panic"])
 		} else {
 			for _, rid := range c02Sorted(srefs) {
+				if _, seen := irefs[rid]; !seen {
+					continue // written in a loaded document but not reachable from the returned root object
+				}
 				want := []string{c02Canon(srefs[rid])}
 				if got := c02Set(irefs[rid]); !sameStrs(got, want, true) {
 					v.IS = false
@@ -967,8 +970,21 @@ func c02BackSlot(from, to string) *c02Slot {
 
 // random layouts
 func c02Random(r *hx.Rng) hx.Case {
-	dirs := []string{"/r", "/r/a", "/r/b", "/r/a/c"}
-	names := []string{"x.json", "y.json", "root.json"}
+	// Three regimes.
+	// (A) cyclic: all files in ONE directory, arbitrary reference graphs between VALUE components (cycles,
+	//     diamonds, self references), component names unique per file.
+	// (B) chains: one directory, top-level components may themselves be references (reference to reference),
+	//     references only point to components declared LATER (acyclic).
+	// (C) several directories, names shared between files (the same text in several files), acyclic.
+	// Cycles that pass through a reference to a reference or that span directories are covered by the
+	// enumerated shapes; at random they mostly land in the known classes (#29, second walk).
+	cyclic := r.Chance(40)
+	multi := !cyclic && r.Chance(55)
+	dirs := []string{hx.Pick(r, []string{"/r", "/r/a", "/r/a/c"})}
+	if multi {
+		dirs = []string{"/r", "/r/a", "/r/b", "/r/a/c"}
+	}
+	names := []string{"x.json", "y.json", "root.json", "z.json"}
 	nf := 2 + r.Intn(3)
 	paths := []string{}
 	seen := map[string]bool{}
@@ -994,8 +1010,10 @@ func c02Random(r *hx.Rng) hx.Case {
 				kind = "schema"
 			}
 			nm := c02TopName(kind, hx.Pick(r, cnames))
-			if kind == "pathItem" {
-				nm += strconv.Itoa(fi) // path-item references are identified by their key
+			if kind == "pathItem" || !multi {
+				// path-item references are identified by their key; in the one-directory regime every name is
+				// unique so that '#/…' texts are not shared between files (shared texts are regime 2 and #29)
+				nm += strconv.Itoa(fi)
 			}
 			if used[kind+nm] {
 				continue
@@ -1005,16 +1023,20 @@ func c02Random(r *hx.Rng) hx.Case {
 		}
 	}
 	rid := 0
+	cur := -1 // index of the component being built
 	mkRef := func(from string, kind string) any {
 		// a reference to a random component of that kind (any file), or rarely a dangling / wrong-kind one
 		cands := []comp{}
-		for _, c := range comps {
-			if c.kind == kind {
+		for ci, c := range comps {
+			if c.kind == kind && (cyclic || ci > cur) {
 				cands = append(cands, c)
 			}
 		}
 		rid++
 		id := "r" + strconv.Itoa(rid)
+		if len(cands) == 0 && !r.Chance(10) {
+			return c02Val(kind, "inline-"+id) // nothing to point at: an inline value
+		}
 		if len(cands) == 0 || r.Chance(3) {
 			if len(comps) > 0 && r.Bool() {
 				c := hx.Pick(r, comps)
@@ -1062,9 +1084,10 @@ func c02Random(r *hx.Rng) hx.Case {
 		}
 		return v
 	}
-	for _, c := range comps {
+	for ci, c := range comps {
+		cur = ci
 		var obj any
-		if r.Chance(25) {
+		if !cyclic && r.Chance(25) {
 			obj = mkRef(c.file, c.kind)
 		} else {
 			obj = mkVal(c.file, c.kind, c.name+"@"+c.file, 0)
@@ -1072,6 +1095,7 @@ func c02Random(r *hx.Rng) hx.Case {
 		c02Put(l.file(c.file), c.kind, c.name, obj)
 	}
 	// whole-file elements
+	cur = -1
 	if r.Chance(25) {
 		kind := hx.Pick(r, c02Kinds)
 		ef := hx.Pick(r, dirs) + "/elem.json"
@@ -1119,6 +1143,9 @@ func shrinkC02(c hx.Case) []hx.Case {
 	// collection; values themselves are never edited, so that they stay in the marshaller's normal form
 	for fi, f := range files {
 		doc, _ := f.(map[string]any)["json"].(map[string]any)
+		if _, isDoc := doc["openapi"]; !isDoc {
+			continue // a bare element file: its value is not edited
+		}
 		var cands [][]string
 		for _, top := range c02Sorted(doc) {
 			switch top {
